@@ -317,7 +317,12 @@ def concurrent_pairs(tier):
     out.append(('print [random 5 5] print {[random 6 6] + [random 7 7]}', 'print [random 50 50] print {[random 60 60] + [random 70 70]}'))
     out.append(('print {2 ^ 3 ^ 2 - 7 % 4} print {1 < 2 and 0 or 5}', 'print {3 ^ 2 ^ 2 - 9 % 5} print {2 < 1 or 0 and 5}'))
     out.append(('print [round [sqrt 16]] print [floor {[ceil 2.5] / 2}]', 'print [round [sqrt 81]] print [floor {[ceil 6.5] / 2}]'))
-    return [(world.POP_ONE, a, b, 1 if tier == 'quick' else 2, True) for a, b in out]
+    tasks = [(world.POP_ONE, a, b, 1, True) for a, b in out]
+    if tier != 'quick':
+        # two preemptions for the shortest scripts (about a million schedules per pair and start order)
+        tasks += [(world.POP_ONE, 'print [%s 2.5]' % f, 'print [%s 7.25]' % f, 2, True) for f in ('round', 'sqrt')]
+        tasks.append((world.POP_ONE, 'print [random 5 5]', 'print [random 50 50]', 2, True))
+    return tasks
 
 
 def run(tier, seed):
@@ -357,7 +362,7 @@ def run(tier, seed):
             merge({bad[0]: [1, bad[1], bad[2]]})
     from . import concur
     n_pairs = len(concurrent_pairs(tier))
-    ctasks = concur.split(concurrent_pairs(tier))
+    ctasks = concur.split(concurrent_pairs(tier), 2 if tier == 'quick' else 8)
     cres = par.run_tasks(concur.pair_task, ctasks)
     cexec = sum(r['execs'] for r in cres)
     assert cexec > 20 * n_pairs
@@ -379,7 +384,7 @@ def run(tier, seed):
                 'value compared with Python evaluation of the tree; C: built-in argument grids; D: every answer '
                 'sequence of the random source (all 2^k getrandbits answers, <=3 rejection rounds; 64-point random() '
                 'grid) for every -3<=a<=b<=8; F: two jobs evaluating the same built-in with different operands on two '
-                'controlled threads, every schedule with <=1 (thorough 2) preemptions at line granularity, each job compared with its solo run. distinct_nontrivial = distinct observed output traces.',
+                'controlled threads, every schedule with <=1 preemption (thorough: 2 for three short pairs) at line granularity, each job compared with its solo run. distinct_nontrivial = distinct observed output traces.',
         'exhaustive': True,
         'cases_per_part': per_part,
         'reference_undefined_skipped': tot['undefined'],
@@ -388,7 +393,7 @@ def run(tier, seed):
         'random_answer_sequences': rexec - cexec,
         'concurrent_job_pairs': n_pairs,
         'concurrent_schedules': cexec,
-        'concurrent_preemption_bound': ctasks[0][3],
+        'concurrent_preemption_bound': max(t[3] for t in ctasks),
         'samples': ['print { 2 - 3 - 5 }', 'print {2^3^2}', 'if { 2 < 3 and 0 or 7 } print 1 else print 0',
                     'print [random -3 8]  with getrandbits answers [13, 2]'],
     }
